@@ -2,10 +2,34 @@ package dicescript
 
 import (
 	"errors"
+	"sort"
 )
 
 func funcComputedCompute(ctx *Context, this *VMValue, params []*VMValue) *VMValue {
 	return this.ComputedExecute(ctx, nil)
+}
+
+// arrayIntKeep adds the pickNum lowest (low) or highest elements of an all-int array in
+// integer arithmetic; ok is false when the array holds anything but ints.
+func arrayIntKeep(this *VMValue, pickNum IntType, low bool) (sum IntType, ok bool) {
+	arr, _ := this.ReadArray()
+	nums := make([]IntType, 0, len(arr.List))
+	for _, i := range arr.List {
+		v, isInt := i.ReadInt()
+		if !isInt {
+			return 0, false
+		}
+		nums = append(nums, v)
+	}
+	if low {
+		sort.Slice(nums, func(i, j int) bool { return nums[i] < nums[j] })
+	} else {
+		sort.Slice(nums, func(i, j int) bool { return nums[i] > nums[j] })
+	}
+	for i := IntType(0); i < pickNum && i < IntType(len(nums)); i++ {
+		sum += nums[i]
+	}
+	return sum, true
 }
 
 func funcArrayKeepLow(ctx *Context, this *VMValue, params []*VMValue) *VMValue {
@@ -13,6 +37,9 @@ func funcArrayKeepLow(ctx *Context, this *VMValue, params []*VMValue) *VMValue {
 	if !ok {
 		ctx.Error = errors.New("类型错误: 取高/取低的个数必须为整数")
 		return nil
+	}
+	if sum, allInt := arrayIntKeep(this, pickNum, true); allInt {
+		return NewIntVal(sum)
 	}
 	isAllInt, ret := this.ArrayFuncKeepLow(ctx, pickNum)
 	if isAllInt {
@@ -28,6 +55,9 @@ func funcArrayKeepHigh(ctx *Context, this *VMValue, params []*VMValue) *VMValue 
 		ctx.Error = errors.New("类型错误: 取高/取低的个数必须为整数")
 		return nil
 	}
+	if sum, allInt := arrayIntKeep(this, pickNum, false); allInt {
+		return NewIntVal(sum)
+	}
 	isAllInt, ret := this.ArrayFuncKeepHigh(ctx, pickNum)
 	if isAllInt {
 		return NewIntVal(IntType(ret))
@@ -41,10 +71,12 @@ func funcArraySum(ctx *Context, this *VMValue, params []*VMValue) *VMValue {
 
 	isAllInt := true
 	sumNum := float64(0)
+	sumInt := IntType(0) // ints are added as ints: a float64 accumulator loses the low bits beyond 2^53
 	for _, i := range arr.List {
 		switch i.TypeId {
 		case VMTypeInt:
 			sumNum += float64(i.MustReadInt())
+			sumInt += i.MustReadInt()
 		case VMTypeFloat:
 			isAllInt = false
 			sumNum += i.MustReadFloat()
@@ -52,7 +84,7 @@ func funcArraySum(ctx *Context, this *VMValue, params []*VMValue) *VMValue {
 	}
 
 	if isAllInt {
-		return NewIntVal(IntType(sumNum))
+		return NewIntVal(sumInt)
 	} else {
 		return NewFloatVal(sumNum)
 	}
